@@ -16,6 +16,7 @@ func init() {
 	verifHarnesses["HarnessC05Parallel"] = HarnessC05Parallel
 	verifHarnesses["HarnessC05FlushDuringAdd"] = HarnessC05FlushDuringAdd
 	verifHarnesses["HarnessC05CommitFault"] = HarnessC05CommitFault
+	verifHarnesses["HarnessC05Bytes"] = HarnessC05Bytes
 }
 
 type verifRow struct {
@@ -432,6 +433,56 @@ func HarnessC05CommitFault() {
 		verifAssert(verifCount(idx, &ExprEqual{Column: "t", Value: verifTag4(i)}) == 1, "C05: Flush reported success although rows whose AddRow had succeeded were lost in a failed batch commit")
 	}
 	verifAssert(verifCount(idx, &ExprNot{Expr: &ExprEqual{Column: "a", Value: "nope"}}) >= uint64(len(acked)), "C05: Flush reported success with fewer rows than were acknowledged")
+	idx.Close()
+	verifReach("end")
+}
+
+// HarnessC05Bytes: column names and values are byte strings, not text: names and values that
+// are not valid UTF-8 (Latin-1 data), that differ only in such bytes, that contain control
+// bytes, and the empty column name, come back from the flushed index byte for byte — in the
+// schema, as query operands and as group values — for each writer.
+func HarnessC05Bytes() {
+	out := verifTempPath("c05b.updog")
+	col := "c\xe9" // Latin-1 e-acute
+	vals := []string{"K\xf6ln", "K\xfcln", "ok\xff", "tab\there", ""}
+	var w verifWriter
+	closeDBs := func() {}
+	if verifBool("big-writer") {
+		bw, c := verifBigWriter(out, verifTempPath("c05b.tmp"))
+		w, closeDBs = bw, c
+	} else {
+		w = NewIndexWriter(out)
+	}
+	for i, v := range vals {
+		id, err := w.AddRow(map[string]string{col: v, "": "under the empty name", "t": verifTag(i)})
+		verifAssert(err == nil && id == uint32(i), "C05: AddRow must assign row ids 0,1,2,... in call order")
+	}
+	verifAssert(w.Flush() == nil, "C05: Flush failed for names or values that are not valid UTF-8")
+	closeDBs()
+	idx, err := OpenIndex(out)
+	verifAssert(err == nil, "C05: an index holding names or values that are not valid UTF-8 cannot be opened")
+	if err != nil {
+		return
+	}
+	sch := idx.GetSchema()
+	// columns sorted byte-wise: "", "c\xe9", "t"
+	ok := len(sch.Columns) == 3 && sch.Columns[0].Name == "" && sch.Columns[1].Name == col && sch.Columns[2].Name == "t"
+	if ok {
+		want := []string{"", "K\xf6ln", "K\xfcln", "ok\xff", "tab\there"} // byte-wise ascending
+		ok = len(sch.Columns[1].Values) == len(want)
+		for i := range want {
+			ok = ok && sch.Columns[1].Values[i].Value == want[i]
+		}
+		ok = ok && len(sch.Columns[0].Values) == 1 && sch.Columns[0].Values[0].Value == "under the empty name"
+	}
+	verifAssert(ok, "C05: the schema does not hold the added column names and values byte for byte")
+	for i, v := range vals {
+		both := &ExprAnd{Exprs: []Expression{&ExprEqual{Column: col, Value: v}, &ExprEqual{Column: "t", Value: verifTag(i)}}}
+		verifAssert(verifCount(idx, &ExprEqual{Column: col, Value: v}) == 1 && verifCount(idx, both) == 1, "C05: a value that is not valid UTF-8 does not hold for exactly the row it was added to")
+	}
+	verifAssert(verifCount(idx, &ExprEqual{Column: "", Value: "under the empty name"}) == uint64(len(vals)), "C05: the column with the empty name does not hold for the rows it was added to")
+	res, err := idx.Execute(&Query{Expr: &ExprNot{Expr: &ExprEqual{Column: "t", Value: "nope"}}, GroupBy: []string{col}})
+	verifAssert(err == nil && res != nil && len(res.Groups) == len(vals), "C05: grouping by a column with values that are not valid UTF-8 does not yield one group per value")
 	idx.Close()
 	verifReach("end")
 }
